@@ -849,6 +849,47 @@ example : refsAll (goodKey ⟨.rows, 4, 2⟩)
   refine ⟨⟨⟨true, 2⟩, ⟨true, 3⟩, ⟨true, 2⟩, ⟨true, 3⟩, rfl, by decide, by decide +kernel, by decide⟩,
     ⟨⟨false, 3⟩, ⟨false, 4⟩, ⟨false, 3⟩, ⟨false, 6⟩, rfl, by decide, by decide +kernel, by decide⟩⟩
 
+/-! ## Defined names: every name of the workbook is visited -/
+
+/-- **defined_names_each_adjusted** — clause "in cells, defined names and data-validation rules":
+`adjustDefinedNames` treats every defined name on its own — the text at position `i` of the result is
+the rewrite of the name at position `i`, whatever stands before or after it (in particular a name
+whose rewrite FAILS, e.g. `Sheet1!$A$1:$XFD$1` on a column insert, does not stop the names after it
+from being rewritten), and no name is added or lost. Tied by the transcript op `dn`. -/
+theorem defined_names_each_adjusted (sheet : Str) (e : Edit) (names : List Str)
+    (pre post : List (Str × List Token)) (d : Str × List Token) :
+    (Impl.adjustDefinedNames sheet e names (pre ++ d :: post))[pre.length]? =
+        some (Impl.adjustDefinedName sheet e names d) ∧
+    (Impl.adjustDefinedNames sheet e names (pre ++ d :: post)).length = (pre ++ d :: post).length := by
+  simp [Impl.adjustDefinedNames]
+
+/-- an adjustable name gets the rewritten text … -/
+theorem defined_name_adjustable (sheet : Str) (e : Edit) (names : List Str) (d : Str × List Token) (v : Str)
+    (h : Impl.adjustRef ⟨sheet, [], true, e, names, d.1⟩ d.2 = (v, none)) :
+    Impl.adjustDefinedName sheet e names d = v := by
+  simp [Impl.adjustDefinedName, h]
+
+/-- … and one whose rewrite fails (a reference pushed out of the grid) keeps its text -/
+theorem defined_name_unadjustable_kept (sheet : Str) (e : Edit) (names : List Str) (d : Str × List Token)
+    (v : Str) (er : Err) (h : Impl.adjustRef ⟨sheet, [], true, e, names, d.1⟩ d.2 = (v, some er)) :
+    Impl.adjustDefinedName sheet e names d = d.1 := by
+  simp [Impl.adjustDefinedName, h]
+
+/-- a defined name that is one reference into the edited sheet is relocated (absolute coordinates
+move, relative ones stay: `Spec.shiftRef true`), the prefix re-emitted through `escapeSheetName` -/
+theorem defined_name_reference_relocated (sheet : Str) (e : Edit) (names : List Str) (text : Str)
+    (r r' : Spec.Ref) (hne : sheet ≠ [])
+    (hn : names.contains (sheet ++ '!' :: Spec.render r) = false)
+    (hb : Impl.containsBracket (sheet ++ '!' :: Spec.render r) = false)
+    (hg : Spec.inGrid r) (hs : Spec.shiftRef true e r = some r') (hg' : Spec.inGrid r') :
+    Impl.adjustDefinedName sheet e names (text, [⟨sheet ++ '!' :: Spec.render r, .operand, .range⟩]) =
+      Impl.escapeSheetName sheet ++ '!' :: Spec.render r' := by
+  have h := operand_prefixed_edited_sheet sheet [] true e r r' hne hg hs hg'
+  have hn' : ¬ (sheet ++ '!' :: Spec.render r ∈ names) := by
+    intro hm; simp at hn; exact hn hm
+  simp [Impl.adjustDefinedName, Impl.adjustRef, Impl.arrayMarks, Impl.isStartTok, Impl.isStopTok,
+    Impl.adjustRefLoop, hn', hb, h]
+
 /-! ## Where the current code does not satisfy the full statement -/
 
 /-- **array_constant_verbatim** (repaired in the repository; was `finding_array_constant_rewritten`) —
